@@ -86,7 +86,6 @@ fn bnode_shape(tok: &str) { assert!(tok.len() >= 3 && tok.as_bytes()[0] == b'_' 
 // ---- ASCII, every string of <= 2 bytes (quick tier) ----
 scanner_harness!(variable_ascii2, sparql_variable, ascii, 2, 5, var_shape);
 scanner_harness!(iri_ascii2, sparql_iri, ascii, 2, 5, iri_shape);
-scanner_harness!(blank_node_ascii2, sparql_blank_node, ascii, 2, 5);
 scanner_harness!(prefixed_name_ascii2, sparql_prefixed_name, ascii, 2, 5);
 scanner_harness!(numeric_ascii2, sparql_numeric_literal, ascii, 2, 5);
 scanner_harness!(quoted_literal_ascii2, sparql_quoted_literal, ascii, 2, 5);
